@@ -5,6 +5,13 @@
 //! once: keeping the bulk here cuts the fixed start-up cost of every engine-B execution.)
 #![allow(clippy::too_many_arguments)]
 
+// Thread-locals of the harness: under engine C (shuttle) all simulated threads are continuations
+// on one OS thread, so "per thread" must mean "per simulated thread".
+#[cfg(feature = "engine_c")]
+pub use shuttle::thread_local as tls;
+#[cfg(not(feature = "engine_c"))]
+pub use std::thread_local as tls;
+
 pub mod block;
 pub mod cli;
 pub mod engine;
@@ -13,6 +20,8 @@ pub mod minimize;
 pub mod miri_mode;
 pub mod rng;
 pub mod sched;
+#[cfg(feature = "engine_c")]
+pub mod shuttle_mode;
 pub mod slots;
 pub mod stub;
 pub mod types;
